@@ -855,6 +855,7 @@ structure Verified (net : Net) (B : Bundle) : Prop where
   txs : inUnverifiable net B.block.header.number = false → verifyTransactions net.chainId B.block.txs B.block.header.version = true
   hash : inUnverifiable net B.block.header.number = false →
     ∃ ov, ov ∈ overridesOf net B.block ∧ blockHash net B.block B.su.diff ov = some B.block.header.hash
+  l1Calldata : l1CalldataChecked = true → B.block.txs.any l1NoCalldata = false
 
 theorem sanityCheck_ok (net : Net) (B : Bundle) (h : sanityCheck net B = .ok ()) : Verified net B := by
   unfold sanityCheck at h
@@ -869,10 +870,13 @@ theorem sanityCheck_ok (net : Net) (B : Bundle) (h : sanityCheck net B = .ok ())
   rename_i h4
   split at h; · simp at h
   rename_i h5
+  split at h; · simp at h
+  rename_i h5b
   dsimp only at h
   split at h; · simp at h
   rename_i h6
-  refine ⟨by simpa using h1, by simpa using h2, by simpa using h3, by simpa using h4, by simpa using h5, ?_, ?_⟩
+  refine ⟨by simpa using h1, by simpa using h2, by simpa using h3, by simpa using h4, by simpa using h5, ?_, ?_,
+    fun hc => by simpa [hc] using h5b⟩
   · intro hu
     have h6' : verifyTransactionsE net.chainId B.block.txs B.block.header.version = .ok () := by simpa [hu] using h6
     unfold verifyTransactionsE at h6'
